@@ -122,15 +122,20 @@ theorem mergeLoop_final {n : Nat} {ok : Row α → List Nat → List Nat → Boo
     the merge loop (what `cut_straight` / `cut_balanced` pass, `mergeLoop_final`), whenever `get_labels` returns,
     the dendrogram `R` it returns is a valid dendrogram over the `k` clusters taken as leaves weighted by their
     sizes (row `t` merges two distinct live clusters, sizes add, `k - 1` rows), its heights are heights of `D` in
-    the same order, and the cluster sizes sum to `n`. The loop itself never fails on such inputs
-    (`SkNet.Cut.reduce_final`: every `pop` finds its key). -/
+    the same order, the cluster sizes sum to `n`, and **every row is a merge of the given tree**: row `u` of `R` has
+    the height of a row `t` of `D`, and the nodes below merge `t` are exactly the nodes whose label is a leaf of
+    the reduced node `k + u`. The loop itself never fails on such inputs (`SkNet.Cut.reduce_final`). -/
 theorem reducedDendro_valid {D : Dendro α} {st : Dict (List Nat)} {srt : Bool} {argsort : List Nat → List Nat}
     (hs : SortsDesc argsort) (hv : ValidDendro (D.length + 1) D = true) (hinv : CInv (D.length + 1) D st)
     (hne : ∀ p ∈ st, p.2 ≠ []) {out : CutOut α} (h : getLabels D st srt true argsort = .ok out) :
     ∃ R, out.dendro = some R ∧
       ValidDendroW ((orderedClusters st srt argsort).map List.length) R = true ∧
       (R.map (fun (q : Row α) => q.h)).Sublist (D.map (fun (q : Row α) => q.h)) ∧
-      ((orderedClusters st srt argsort).map List.length).sum = D.length + 1 := by
+      ((orderedClusters st srt argsort).map List.length).sum = D.length + 1 ∧
+      (∀ (u : Nat) (ru : Row α), R[u]? = some ru → ∃ (t : Nat) (rt : Row α), D[t]? = some rt ∧ ru.h = rt.h ∧
+        ∀ v, v < D.length + 1 → (v ∈ leaves (D.length + 1) D (D.length + 1 + t) ↔
+          out.labels.getD v 0 ∈ leaves (orderedClusters st srt argsort).length R
+            ((orderedClusters st srt argsort).length + u))) := by
   obtain ⟨hsl, _⟩ := getLabels_subtrees hs hinv hne h
   have hsum : ((orderedClusters st srt argsort).map List.length).sum = D.length + 1 := by
     rw [← List.length_flatten, hsl.partition.length_eq, List.length_range]
@@ -158,7 +163,7 @@ theorem reducedDendro_valid {D : Dendro α} {st : Dict (List Nat)} {srt : Bool} 
     rw [← hxe]
     exact (hsl.label_class hu).2 c cc hcc
   have hR0 := rinv_init (α := α) (n := D.length + 1) (lab := fun u => out.labels.getD u 0) rfl hlab hnonempty
-  obtain ⟨st', hrun, hvalid, hheights⟩ := reduce_final (List.length_map _) D hv hcls hR0
+  obtain ⟨st', hrun, hvalid, hheights, htie⟩ := reduce_final (List.length_map _) D hv hcls hlab hR0
   have hlen := hsl.length
   unfold getLabels at h
   simp only [bind, Except.bind] at h
@@ -175,7 +180,7 @@ theorem reducedDendro_valid {D : Dendro α} {st : Dict (List Nat)} {srt : Bool} 
       rw [hlen] at hred
       rw [hrun] at hred
       cases hred
-      exact ⟨st'.rows, rfl, hvalid, hheights, hsum⟩
+      exact ⟨st'.rows, rfl, hvalid, hheights, hsum, htie⟩
 
 /-! ### the functions return -/
 
@@ -255,7 +260,7 @@ theorem getLabels_returns {D : Dendro α} {st : Dict (List Nat)} (srt retD : Boo
       rw [← hxe]
       exact (hsl.label_class hu).2 c cc hcc
     have hR0 := rinv_init (α := α) (n := D.length + 1) (lab := fun u => l'.getD u 0) rfl hlab hnonempty
-    obtain ⟨st', hrun, _, _⟩ := reduce_final (List.length_map _) D hv hcls hR0
+    obtain ⟨st', hrun, _, _⟩ := reduce_final (List.length_map _) D hv hcls hlab hR0
     have hlen : l'.length = D.length + 1 := by simpa using h2
     refine ⟨{ labels := l', dendro := some st'.rows }, ?_⟩
     unfold getLabels
@@ -579,14 +584,17 @@ theorem aggregate_root_only {D : Dendro α} {n : Nat} (hv : ValidDendro n D = tr
     and is a valid dendrogram over `n_clusters` leaves weighted by `w`, where `w` — the counts returned with
     `return_counts=True` — is determined: `w[c]` is the number of leaves of the `c`-th (in increasing order of node id)
     cluster alive after the first `n - n_clusters` merges (`liveNodes`), and `w` sums to `n`.
-    (False on the pinned tree: F5, repaired.)  That row `u` of the aggregated dendrogram has the leaf set of row
-    `n - n_clusters + u` of `D` is checked on every run by `aggSpec`, not proved. -/
+    (False on the pinned tree: F5, repaired.)  Row `u` of the aggregated dendrogram is the merge `n - n_clusters + u`
+    of `D`: the leaves below that merge are exactly the leaves of the clusters that are the leaves of the
+    aggregated node `n_clusters + u` (last conjunct). -/
 theorem aggregate_valid {D : Dendro α} {n k : Nat} (hv : ValidDendro n D = true) (hk1 : 1 ≤ k) (hkn : k ≤ n)
     (cnt : Bool) :
     ∃ out w, aggregateDendrogram D k cnt = .ok out ∧ w.length = k ∧ w.sum = n ∧
       ValidDendroW w out.dendro = true ∧
       out.dendro.map (·.h) = (D.drop (n - k)).map (·.h) ∧ (cnt = true → out.counts = some w) ∧
-      w = (liveNodes n D (n - k)).map (fun x => (leaves n D x).length) := by
+      w = (liveNodes n D (n - k)).map (fun x => (leaves n D x).length) ∧
+      (∀ u, u < k - 1 → ∀ v, v < n → (v ∈ leaves n D (n + (n - k) + u) ↔
+        ∃ c ∈ leaves k out.dendro (k + u), v ∈ leaves n D ((liveNodes n D (n - k)).getD c 0))) := by
   by_cases hk2 : 2 ≤ k
   · exact aggregate_ge2 hv hk2 hkn cnt
   · have hk : k = 1 := by omega
@@ -609,7 +617,7 @@ theorem aggregate_valid {D : Dendro α} {n k : Nat} (hv : ValidDendro n D = true
         simp only [Nat.sub_self, List.getElem?_cons_zero]
         rw [valid_last_size hv]
     refine ⟨{ dendro := [], counts := if cnt then some [n] else none }, [n], ?_, rfl, by simp,
-      by simp [ValidDendroW, validLoop], ?_, ?_, ?_⟩
+      by simp [ValidDendroW, validLoop], ?_, ?_, ?_, by intro u hu; omega⟩
     · unfold aggregateDendrogram
       have e1 : ¬ (1 > D.length + 1) := by omega
       simp only [bind, Except.bind, throw, throwThe, MonadExceptOf.throw, e1, if_false, pure, Except.pure,
@@ -805,7 +813,10 @@ theorem cutStraight_dendro_valid {D0 : Dendro α} {nc : Option Nat} {thr : Optio
       SubtreeLabelling (D0.length + 1) D out.labels srt cl ∧ out.dendro = some R ∧
       ValidDendroW (cl.map List.length) R = true ∧
       (R.map (fun (q : Row α) => q.h)).Sublist (D.map (fun (q : Row α) => q.h)) ∧
-      (cl.map List.length).sum = D0.length + 1 := by
+      (cl.map List.length).sum = D0.length + 1 ∧
+      (∀ (u : Nat) (ru : Row α), R[u]? = some ru → ∃ (t : Nat) (rt : Row α), D[t]? = some rt ∧ ru.h = rt.h ∧
+        ∀ v, v < D0.length + 1 → (v ∈ leaves (D0.length + 1) D (D0.length + 1 + t) ↔
+          out.labels.getD v 0 ∈ leaves cl.length R (cl.length + u))) := by
   obtain ⟨D, k, cut, st, hD, _, _, hloop, hlab⟩ := cutStraight_unfold h
   have hlen : D.length = D0.length := by
     rcases hD with e | e
@@ -821,8 +832,8 @@ theorem cutStraight_dendro_valid {D0 : Dendro α} {nc : Option Nat} {thr : Optio
   rw [← hlen] at hloop hvD ⊢
   obtain ⟨hinv, hne⟩ := mergeLoop_final hloop
   obtain ⟨hsub, _⟩ := getLabels_subtrees hs hinv hne hlab
-  obtain ⟨R, h1, h2, h3, h4⟩ := reducedDendro_valid hs hvD hinv hne hlab
-  exact ⟨D, _, R, hD, hsub, h1, h2, h3, h4⟩
+  obtain ⟨R, h1, h2, h3, h4, h5⟩ := reducedDendro_valid hs hvD hinv hne hlab
+  exact ⟨D, _, R, hD, hsub, h1, h2, h3, h4, h5⟩
 
 /-- non-vacuity: two clusters {0,1}, {2,3}; the reduced dendrogram has the single row (0, 1, 3, 4) -/
 example : (cutStraight (α := Nat) [⟨0, 1, 1, 2⟩, ⟨2, 3, 2, 2⟩, ⟨4, 5, 3, 4⟩] (some 2) none true true
@@ -922,12 +933,15 @@ theorem cutBalanced_dendro_valid {D : Dendro α} {m : Nat} {srt : Bool} {argsort
     ∃ cl R, SubtreeLabelling (D.length + 1) D out.labels srt cl ∧ out.dendro = some R ∧
       ValidDendroW (cl.map List.length) R = true ∧
       (R.map (fun (q : Row α) => q.h)).Sublist (D.map (fun (q : Row α) => q.h)) ∧
-      (cl.map List.length).sum = D.length + 1 := by
+      (cl.map List.length).sum = D.length + 1 ∧
+      (∀ (u : Nat) (ru : Row α), R[u]? = some ru → ∃ (t : Nat) (rt : Row α), D[t]? = some rt ∧ ru.h = rt.h ∧
+        ∀ v, v < D.length + 1 → (v ∈ leaves (D.length + 1) D (D.length + 1 + t) ↔
+          out.labels.getD v 0 ∈ leaves cl.length R (cl.length + u))) := by
   obtain ⟨_, _, st, hloop, hlab⟩ := cutBalanced_unfold h
   obtain ⟨hinv, hne⟩ := mergeLoop_final hloop
   obtain ⟨hsub, _⟩ := getLabels_subtrees hs hinv hne hlab
-  obtain ⟨R, h1, h2, h3, h4⟩ := reducedDendro_valid hs hv hinv hne hlab
-  exact ⟨_, R, hsub, h1, h2, h3, h4⟩
+  obtain ⟨R, h1, h2, h3, h4, h5⟩ := reducedDendro_valid hs hv hinv hne hlab
+  exact ⟨_, R, hsub, h1, h2, h3, h4, h5⟩
 
 /-- non-vacuity: cap 2 on a caterpillar of 4 leaves: clusters {0,1}, {2}, {3}, reduced rows (0,1) then (3,2) -/
 example : (cutBalanced (α := Nat) [⟨0, 1, 1, 2⟩, ⟨4, 2, 2, 3⟩, ⟨5, 3, 3, 4⟩] 2 true true
